@@ -397,7 +397,7 @@ def run(tier):
     model = rx.LexModel()
     ck.encode(PlyLexer, plylex.Lexer.token, LexerTokenStream._fill_tokbuf)
     n = 6 if tier == "quick" else 9
-    ck.bounds = dict(code_points=n, fill_tokbuf_tokens=4 if tier == "quick" else 6, rule_fn_text_len=5 if tier == "quick" else 7)
+    ck.bounds = dict(code_points=n, fill_tokbuf_tokens=4 if tier == "quick" else 5, rule_fn_text_len=5 if tier == "quick" else 7)
     ck.assume("code points range over 0..0x10FFFF", "each VC holds at a token start with arbitrary right context inside the bound",
               "reference literal grammars are the C++ ones restricted to the forms the property lists (no digit separators in floats, no raw strings)",
               "reference keyword list = the list the lexer published at the pinned commit")
@@ -530,7 +530,7 @@ def run(tier):
             _rulefn_violation(ck, nm, ce, msg, may_nl[nm])
 
         # layer S
-        g = dict(S_MAXTOK=(4 if tier == "quick" else 6))
+        g = dict(S_MAXTOK=(4 if tier == "quick" else 5))
         tw = chrun.run(__name__, "h_fill", [(0, len(S_KINDS))], timeout=60, globs=dict(g, TWIN=True), pool=pool)
         chrun.record(ck, tw, "layer S reachability twin", expect="refuted")
         shards = [(a, b) for a in range(len(S_KINDS)) for b in range(len(S_KINDS) + 1)] + [(len(S_KINDS),)]
